@@ -650,3 +650,139 @@ def chunk_kind(b, chunk):
     if chunk in (PING, PONG):
         return "ping-pong"
     return "tokens"
+
+
+# ---------------------------------------------------------------- pending calls in every state at the idle teardown
+from twisted.internet import defer as _defer
+
+
+class FakeTub:
+    """just enough of a Tub for a Broker that receives gifts: getReference never completes by itself"""
+    accept_gifts = True
+    logRemoteFailures = False
+    logLocalFailures = False
+    unsafeTracebacks = False
+    debugBanana = False
+    _expose_remote_exception_types = True
+
+    def __init__(self):
+        self.gifts = []
+        self.detached = 0
+
+    def getReference(self, url):
+        d = _defer.Deferred()
+        self.gifts.append((url, d))
+        return d
+
+    def brokerDetached(self, b, why):
+        self.detached += 1
+
+    def getShortTubID(self):
+        return "fake"
+
+
+CALL_STATES = ["answered", "gift", "sent", "header-answer", "header-error", "partial", "unsent"]
+
+
+def response_bytes(state, reqID, openid, rng):
+    """inbound bytes that put the call with this reqID into `state`; -> (bytes, number of OPENs used)"""
+    A, E_ = tSTR(b"answer"), tSTR(b"error")
+    if state == "answered":
+        return tOPEN(openid) + A + tINT(reqID) + tINT(42) + tCLOSE(openid), 1
+    if state == "gift":
+        return (tOPEN(openid) + A + tINT(reqID) + tOPEN(openid + 1) + tSTR(b"their-reference") + tINT(reqID + 100)
+                + tSTR(b"pb://xyz@nowhere/gift%d" % reqID) + tCLOSE(openid + 1) + tCLOSE(openid)), 2
+    if state == "header-answer":
+        return tOPEN(openid) + A + tINT(reqID), 1
+    if state == "header-error":
+        return tOPEN(openid) + E_ + tINT(reqID), 1
+    if state == "partial":
+        depth = rng.randint(1, 3)
+        out = tOPEN(openid) + A + tINT(reqID)
+        for k in range(depth):
+            out += tOPEN(openid + 1 + k) + tSTR(b"list") + tINT(k)
+        if rng.random() < 0.5:
+            out += tk(50, STRING) + b"half of a string"      # the body of a token is incomplete as well
+        return out, 1 + depth
+    return b"", 0
+
+
+def call_states(K, T, states, rng, chunk=None):
+    """one Broker with len(states) outstanding callRemotes, each brought into the given state by inbound bytes that
+    arrive (in chunks, one arrival every T/3) while the connection is alive; then the peer goes silent and the reactor
+    runs punctually until well after the idle teardown; then the transport reports connectionLost and the gifts resolve.
+    -> dict(outcomes per call, teardown times, events, leftovers)"""
+    r = Run(K, T, True, 0)
+    b, o = r.b, r.o
+    tub = FakeTub()
+    b.tub = tub
+    outcomes = {i: [] for i in range(len(states))}
+    order = sorted(range(len(states)), key=lambda i: states[i] == "unsent")      # the unsent ones are made last
+    with E.quiet():
+        tracker = referenceable.RemoteReferenceTracker(b, 1, None, None)
+        rr = referenceable.RemoteReference(tracker)
+        reqids = {}
+        for i in order:
+            if states[i] == "unsent" and not b.paused:
+                b.paused = True           # the outbound side is blocked: the call is queued, nothing is written
+            before = set(b.waitingForAnswers)
+            d = rr.callRemote("m%d" % i, i)
+            d.addBoth(lambda res, i=i: outcomes[i].append((E.clock.seconds(), res)))
+            new = set(b.waitingForAnswers) - before
+            reqids[i] = new.pop() if new else None
+        E.turn()
+    # the responses: complete ones first, the (single) incomplete one last -- a response that has begun blocks the stream
+    inbound = b""
+    openid = 0
+    complete = [i for i in order if states[i] in ("answered", "gift")]
+    incomplete = [i for i in order if states[i] in ("header-answer", "header-error", "partial")][:1]
+    rng.shuffle(complete)
+    for i in complete + incomplete:
+        data, n = response_bytes(states[i], reqids[i], openid, rng)
+        openid += n
+        inbound += data
+    t = 0
+    step = max(1, T // 3)
+    pos = 0
+    while pos < len(inbound):
+        n = len(inbound) if chunk is None else chunk(rng)
+        t += step
+        for _ in range(20):
+            pend = [x for x in r.pending() if x is not None]
+            if not pend or min(pend) > t:
+                break
+            r.step("tick", max(min(pend), E.clock.seconds()))
+        r.stream = inbound[pos:pos + n]
+        r.spos = 0
+        r.step("rx", t, n)
+        pos += n
+    t_silent = t
+    early = {i: list(v) for i, v in outcomes.items()}
+    horizon = t + 2 * T + eps_ms() + 1
+    for _ in range(200):
+        pend = [x for x in r.pending() if x is not None]
+        if not pend or min(pend) > horizon:
+            break
+        r.step("tick", max(min(pend), E.clock.seconds()))
+    r.step("tick", horizon)
+    r.step("close", horizon)
+    # the gifts resolve (or fail) after everything is over: nothing may fire a second time
+    with E.quiet():
+        for (url, d) in tub.gifts:
+            if not d.called:
+                if rng.random() < 0.5:
+                    d.errback(failure.Failure(ConnectionDone()))
+                else:
+                    d.callback(None)
+        E.clock.advance(0)
+        run_eventuals(b)
+    # a second incomplete response cannot begin while the first one is open: those calls are simply "sent"
+    eff = [st if (st not in ("header-answer", "header-error", "partial") or i in incomplete) else "sent"
+           for i, st in enumerate(states)]
+    res = dict(states=eff, reqids=reqids, t_silent=t_silent, early=early, waiting_left=sorted(b.waitingForAnswers),
+               gifts=len(tub.gifts), inbound=inbound.hex())
+    ob = r.finish()
+    res["o"] = ob
+    res["outcomes"] = {i: [(tm, getattr(getattr(x, "type", None), "__name__", None) or repr(x)[:40]) for (tm, x) in v]
+                       for i, v in outcomes.items()}
+    return res
